@@ -234,6 +234,14 @@ def wl_redirected_prints(ctx, rng, case_no):
     nthreads = rng.choice([2, 2, 3])
     prog = [[["pyprint" if rng.random() < 0.8 else "pyflush", "T%d.%d" % (th, i)] for i in range(rng.randint(1, 3))]
             for th in range(nthreads)]
+    # a quarter of the line prints becomes ONE write() of three complete lines (what a logging handler or a child's
+    # captured output does): the lines of one write reach the file together, nothing of another thread in between
+    import random as _random
+    r3 = _random.Random("multi/%d" % case_no)
+    for ops in prog:
+        for op in ops:
+            if op[0] == "pyprint" and r3.random() < 0.3:
+                op[0] = "pywrite_multi"
     if rng.random() < 0.3:
         prog[0].append(["print", "T0.9", 1])
     if rng.random() < 0.3:
@@ -332,7 +340,7 @@ def execute(ctx, prog, display, terminal, firings, height, strategy, strat_kind,
     console._record_buffer_lock = coop.CoopRLock(sched, "console._record_buffer_lock")
     events = []          # (step, thread, kind, detail)
     # builtin print() from the threads goes through the display's redirect (sys.stdout is a FileProxy while it runs)
-    redirect = any(op[0] in ("pyprint", "pyflush") for ops in prog for op in ops)
+    redirect = any(op[0] in ("pyprint", "pyflush", "pywrite_multi") for ops in prog for op in ops)
     import sys as _sys
     saved_std = (_sys.stdout, _sys.stderr)
     cur_op = {}          # thread name -> kind of the operation it is executing
@@ -376,6 +384,8 @@ def execute(ctx, prog, display, terminal, firings, height, strategy, strat_kind,
             LOG_SITES[th % 2][0](console, Text("B:%s E:%s" % (op[1], op[1])))
         elif k == "pyprint":
             print("B:%s E:%s" % (op[1], op[1]), file=_sys.stderr if th % 2 else _sys.stdout)
+        elif k == "pywrite_multi":
+            (_sys.stderr if th % 2 else _sys.stdout).write("B:%s\nm:%s:0\nE:%s\n" % (op[1], op[1], op[1]))
         elif k == "pyflush":
             # a fragment without a line end, flushed at once (a prompt, a progress dot)
             print("B:%s E:%s" % (op[1], op[1]), end="", flush=True, file=_sys.stderr if th % 2 else _sys.stdout)
@@ -503,11 +513,11 @@ def execute(ctx, prog, display, terminal, firings, height, strategy, strat_kind,
     writers = set()
     for th, ops in enumerate(prog):
         for op in ops:
-            if op[0] in ("print", "log", "pyprint", "pyflush", "batch_capture"):
+            if op[0] in ("print", "log", "pyprint", "pyflush", "pywrite_multi", "batch_capture"):
                 pid = op[2] if op[0] == "batch_capture" else op[1]
                 b, e = "B:%s" % pid, "E:%s" % pid
                 nb, ne = len(re.findall(re.escape(b) + r"(?!\d)", text)), len(re.findall(re.escape(e) + r"(?!\d)", text))
-                if op[0] in ("pyprint", "pyflush") and holder.get("std_dummies"):
+                if op[0] in ("pyprint", "pyflush", "pywrite_multi") and holder.get("std_dummies"):
                     # (after a worker stopped the display the builtin print writes to the restored streams)
                     late = "".join(d.getvalue() for d in holder["std_dummies"])
                     nb += len(re.findall(re.escape(b) + r"(?!\d)", late))
@@ -731,7 +741,7 @@ def taint(events, writes):
           an unlocked print / log / capture renders or writes the frame (the mirror image: the refresh's erase count
           is the stale one).
     Two lock-holding operations overlapping is NOT this mechanism: the display lock should have kept them apart."""
-    unlocked = ("print", "log", "capture", "print_same", "capture_same", "batch_capture", "pyprint", "pyflush")
+    unlocked = ("print", "log", "capture", "print_same", "capture_same", "batch_capture", "pyprint", "pyflush", "pywrite_multi")
     # which operation a worker thread was in at a given step
     spans = {}
     for s, t, k, d in events:
